@@ -213,6 +213,53 @@ def run_one(t):
     return {"inv": inv, "exit": code, "args_ok": args_ok, "stderr": err[:800]}
 
 
+def same_name_dependencies(v, base, tool, standin):
+    """`every local path dependency, transitively': two members depend on two DIFFERENT local
+    packages that share their name (two versions of a crate in different directories), one of
+    which depends on a third package.  --all formats the root file of each of them once."""
+    d = (base / "samename").resolve()
+
+    def w(rel, text):
+        p = d / rel
+        p.parent.mkdir(parents=True, exist_ok=True)
+        p.write_text(text)
+    w("ws/Cargo.toml", '[workspace]\nmembers = ["a", "b"]\nresolver = "2"\n')
+    w("ws/a/Cargo.toml", '[package]\nname = "a"\nversion = "0.1.0"\nedition = "2021"\n'
+      '[dependencies]\nutil = { path = "../../ext1/util" }\n')
+    w("ws/b/Cargo.toml", '[package]\nname = "b"\nversion = "0.1.0"\nedition = "2018"\n'
+      '[dependencies]\nutil2 = { package = "util", path = "../../ext2/util", version = "0.2.0" }\n')
+    w("ext1/util/Cargo.toml", '[package]\nname = "util"\nversion = "0.1.0"\nedition = "2021"\n')
+    w("ext2/util/Cargo.toml", '[package]\nname = "util"\nversion = "0.2.0"\nedition = "2021"\n'
+      '[dependencies]\nleaf = { path = "../leaf" }\n')
+    w("ext2/leaf/Cargo.toml", '[package]\nname = "leaf"\nversion = "0.1.0"\nedition = "2015"\n')
+    roots = ["ws/a/src/lib.rs", "ws/b/src/lib.rs", "ext1/util/src/lib.rs", "ext2/util/src/lib.rs",
+             "ext2/leaf/src/lib.rs"]
+    for r in roots:
+        w(r, "fn  k( ){}\n")
+    n = 0
+    for order in (["a", "b"], ["b", "a"]):
+        w("ws/Cargo.toml", f'[workspace]\nmembers = ["{order[0]}", "{order[1]}"]\nresolver = "2"\n')
+        lg = d / "log.ndjson"
+        if lg.exists():
+            lg.unlink()
+        env = core.run_env({"RUSTFMT": str(standin), "STANDIN_LOG": str(lg), "STANDIN_STATUS": "{}",
+                            "HOME": str(d), "CARGO_TARGET_DIR": str(d / "target")})
+        r = subprocess.run([tool, "fmt", "--all"], cwd=d / "ws", env=env, capture_output=True,
+                           timeout=120)
+        n += 1
+        seen = []
+        for ln in (lg.read_text().splitlines() if lg.exists() else []):
+            a = json.loads(ln)
+            seen += [str(Path(x).resolve().relative_to(d)) for x in a[:a.index("--edition")]
+                     if x.endswith(".rs")] if "--edition" in a else []
+        if sorted(seen) != sorted(roots) or r.returncode != 0:
+            v.violation(f"samename:{'-'.join(order)}",
+                        f"cargo fmt --all with two local dependencies named `util` (members in the "
+                        f"order {order}): formatted {sorted(seen)}, expected {sorted(roots)}, exit "
+                        f"{r.returncode}", {"stderr": r.stderr.decode('utf-8', 'replace')[-800:]})
+    return n
+
+
 def key_of(sc):
     return (("" if sc.get("mp", "none") == "none" else f"mp={sc['mp']}:") +
             f"types={sc['types']}:virtual={sc['virtual']}:strategy={sc['strategy']}:"
@@ -254,6 +301,7 @@ def run(tier, seed, replay=None):
         res, states = core.eval_report_all("CargoFmt", "CargoFmt.cfg", recs, scratch=base)
         # the option handling (CargoFmtArgs.tla): --check / --message-format / verbosity /
         # informational flags x what every rustfmt invocation does (succeed, fail, killed)
+        n_same = same_name_dependencies(v, base, tool, standin)
         from . import cfauni
         (base / "args").mkdir()
         arecs = cfauni.observe(base / "args", STANDIN)
@@ -305,7 +353,7 @@ def run(tier, seed, replay=None):
                    "second one) x virtual/rooted x {root, --all, -p m1, -p m1 -p m2, -p nosuch} x "
                    "cwd {root, member, member/src} with scripted stand-in statuses (0/1/2/killed)",
            "universe": len(uni), "model_op_differs_from_decl": n_model,
-           "option_combinations": len(arecs), "option_states": astates,
+           "option_combinations": len(arecs), "same_name_dependency_runs": n_same, "option_states": astates,
            "exhaustive": tier == "thorough"}
     return v.finish("model_checking", cov, [
         "`cargo metadata --no-deps --offline` of the installed cargo describes the workspace",
